@@ -75,7 +75,7 @@ def handle (inp out : Sexp) : CaseResult :=
       let c : MemRef := ⟨cn, ci⟩
       let mOut := encProgram (wrapInLoop p c t n)
       let agree := mOut == out
-      let premise := ci == 0 && labelFresh t p.body && counterFresh cn p.body
+      let premise := labelFresh t p.body && counterFresh cn p.body
       -- the interpreter is only run for moderate n (boundary values 2^16 … u32::MAX are checked structurally
       -- and against the model)
       let bodyFinishes := if n ≤ 64 then iterTrace p.body c FUEL n (zeroMem.set c (Int.ofNat n)) else none
